@@ -26,6 +26,8 @@ pub mod pipe_catch;
 #[cfg(any(feature = "p02"))]
 pub mod pipe_maniac;
 pub mod pipe;
+#[cfg(any(feature = "p03" , feature = "p04" , feature = "p07"))]
+pub mod pipe_perf;
 #[cfg(any(feature = "p03"))]
 pub mod c03;
 #[cfg(any(feature = "p04" , feature = "p07"))]
